@@ -95,6 +95,8 @@ func VerifHarness_C12_agree() {
 
 	// one packet, two dataplanes
 	p := vNewPkt()
+	// precondition of the endpoint chain (see C09): the MarkDrop bit is clear on entry
+	verifAssume(p.mark&0x800 == 0)
 	sets := &vSets{m: map[string]bool{}}
 	top := rules.EndpointChainName(rules.WorkloadToEndpointPfx, "cali1234", iptables.MaxChainNameLength)
 	v := vEvalRules(cm[top], p, sets, cm, 0)
